@@ -1,5 +1,5 @@
 //@unit posattrs
-//@props C11
+//@props C11 C18
 // U-posattrs: writing the resolved box back as the element's NATIVE geometry attributes
 // (Position::set_position_attrs / position_via_transform, src/position.rs): only native
 // attributes remain, and their values are the box's corner / centre / size plus dx,dy.
@@ -73,10 +73,23 @@ impl SvgElement {
 pub open spec fn remove_seq(m: M, ks: Seq<&str>, n: int) -> M decreases n {
     if n <= 0 { m } else { remove_seq(m, ks, n - 1).remove(ks[n - 1]@) }
 }
-/// R-abstract: the `"g"` arm of set_position_attrs (translate(..) string built with format! and an iterator chain)
+/// `format!("translate({x1}, {y1})")`
+pub uninterp spec fn translate_str(x: real, y: real) -> Seq<char>;
 #[verifier::external_body]
-pub fn group_translate(element: &mut SvgElement, x1: R32, y1: R32)
-    ensures final(element).name == old(element).name
+pub fn translate_fmt(x1: R32, y1: R32) -> (r: String) ensures r@ == translate_str(val(x1), val(y1)) { unimplemented!() }
+/// `[a, b].into_iter().flatten().collect()`: the present values, in the order written
+#[verifier::external_body]
+pub fn flatten2(a: Option<String>, b: Option<String>) -> (r: Vec<String>)
+    ensures
+        a is Some && b is Some ==> r@.len() == 2 && r@[0]@ == a->Some_0@ && r@[1]@ == b->Some_0@,
+        a is Some && b is None ==> r@.len() == 1 && r@[0]@ == a->Some_0@,
+        a is None && b is Some ==> r@.len() == 1 && r@[0]@ == b->Some_0@,
+        a is None && b is None ==> r@.len() == 0,
+{ unimplemented!() }
+/// itertools `iter().join(" ")` for one or two items
+#[verifier::external_body]
+pub fn join_space(v: &Vec<String>) -> (r: String)
+    ensures v@.len() == 1 ==> r@ == v@[0]@, v@.len() == 2 ==> r@ == v@[0]@ + " "@ + v@[1]@
 { unimplemented!() }
 /// R-abstract: body of position_via_transform after the offsets are known
 #[verifier::external_body]
@@ -103,9 +116,15 @@ impl Position {
 //@item src/position.rs :: impl Position :: fn set_position_attrs
 //@ body-start
 //@ | proof { reveal_with_fuel(remove_seq, 16); }
-//@ cut[R-abstract] <<<                    if x1 != 0. || y1 != 0. {\n                        let xy_xfrm>>> .. <<<                            element.set_attr("transform", &xfrm);\n                        }\n                    }>>> => <<<                    group_translate(element, x1, y1);>>>
+//@ replace[R-fmt-tag] <<<format!("translate({x1}, {y1})")>>> => <<<translate_fmt(x1, y1)>>>
+//@ replace-re[R-flatten] <<<\[(\w+), (\w+)\]\.into_iter\(\)\.flatten\(\)\.collect\(\)>>> => <<<flatten2(\1, \2)>>>
+//@ replace[R-join] <<<xfrm.iter().join(" ")>>> => <<<join_space(&xfrm)>>>
 //@ ensures
 //@ - final(element).name == old(element).name
+//@ - to_bbox_spec(*self) is Some && old(element).name@ == "g"@ ==> ({ let b = to_bbox_spec(*self)->Some_0; let o = old(element).attrs@; let m = final(element).attrs@;
+//@       if val(b.x1) != 0real || val(b.y1) != 0real {
+//@           m == o.insert("transform"@, if o.dom().contains("transform"@) { o["transform"@] + " "@ + translate_str(val(b.x1), val(b.y1)) } else { translate_str(val(b.x1), val(b.y1)) })
+//@       } else { m == o } })     @@C18.group.translate_after
 //@ - to_bbox_spec(*self) is Some && is_rectlike(old(element).name@) ==> lacks(final(element).attrs@,
 //@       seq!["dx"@, "dy"@, "dw"@, "dh"@, "x1"@, "y1"@, "x2"@, "y2"@, "cx"@, "cy"@, "r"@])     @@C11.native.only.rect
 //@ - to_bbox_spec(*self) is Some && old(element).name@ == "circle"@ ==> lacks(final(element).attrs@,
